@@ -425,6 +425,11 @@ class AttributeCollection(MutableMapping[int, Attribute]):
             return self
 
         data = data[offset:]
+        if length > len(data):
+            # RFC 7606 4: the attribute length runs past the end of the attribute block; the slices below
+            # would silently hand a shorter value to the decoder, which may well accept it
+            self.add(TreatAsWithdraw(aid))
+            return self
         left = data[length:]
         attribute = data[:length]
 
